@@ -1,25 +1,28 @@
 (* Correspondence cases for C03.  A history case carries the whole op list
-   issued against a fresh real Badger store (hashes listed once in [tbl] and
-   referred to by position), and for every call the result class it returned
-   with the dump of the lock / body / finalization / key-binding families taken
-   right after it; [check] replays the list on the model from the empty state.
-   A render case carries a deposit and the text whose hash the real UniqueKey
-   equals. *)
+   issued against a fresh real Badger store, for every call the result class it
+   returned and what it changed (difference of the dumps of the lock / body /
+   finalization / key-binding families taken before and after it, plus the
+   family sizes), and the full dump at the end; [check] replays the list on the
+   model from the empty state.  A concurrent case carries a sequential prefix,
+   then the calls issued from 8 goroutines in a sequential order that explains
+   the observed result classes and final dump.  32-byte values are renamed to
+   small numbers (see Model/LocksCheck.v).  A render case carries a deposit
+   (real chain id) and the text whose hash the real UniqueKey equals. *)
 From Coq Require Import List ZArith NArith Bool.
-Require Import Mixin.Base.Res Mixin.Model.GhostKeys Mixin.Model.Locks Mixin.Model.LocksCheck.
+Require Export Mixin.Base.Res Mixin.Model.GhostKeys Mixin.Model.Locks Mixin.Model.LocksCheck.
 Import ListNotations.
 Open Scope N_scope.
 
 Inductive case :=
-| CHist (tbl : list N) (ops : (nat -> N) -> list op) (obs : (nat -> N) -> list (res unit * dump))
-| CConc (tbl : list N) (pre : (nat -> N) -> list op) (obs : (nat -> N) -> list (res unit * dump))
-        (batch : (nat -> N) -> list op) (rs : list (res unit)) (final : (nat -> N) -> dump)
+| CHist (ops : list op) (obs : list (res unit * delta)) (final : dump)
+| CConc (pre : list op) (obs : list (res unit * delta))
+        (batch : list op) (rs : list (res unit)) (final : dump)
 | CRender (chain : N) (tx : list N) (idx : N) (text : list N).
 
 Definition check (c : case) : bool :=
   match c with
-  | CHist tbl ops obs => check_hist tbl ops obs
-  | CConc tbl pre obs batch rs final => check_conc tbl pre obs batch rs final
+  | CHist ops obs final => check_hist ops obs final
+  | CConc pre obs batch rs final => check_conc pre obs batch rs final
   | CRender chain tx idx text =>
       bytes_eqb (render {| d_chain := chain; d_tx := tx; d_index := idx |}) text
   end.
